@@ -117,7 +117,7 @@ def asm_enum(ctx, r):
 # ------------------------------------------------------------------------------------------- ASM-TOTAL
 
 
-@rule("ASM-TOTAL", ["C01", "C03"], "assembler is total, injective and positional; every constant looked up at assembly time is gathered")
+@rule("ASM-TOTAL", ["C01", "C03", "C05", "C02"], "assembler is total, injective and positional; every constant looked up at assembly time is gathered")
 def asm_total(ctx, r):
     items = ctx.file_items(ASM)
     if items is None:
@@ -374,6 +374,94 @@ def stack_seq(an):
             seq.append(("u", None, ev.conds))
     return seq
 
+def _declines(n):
+    """Does the expression/block evaluate to (or return) false and do nothing else?"""
+    if n is None:
+        return False
+    while n.get("k") in ("Paren",):
+        n = n["e"]
+    if n.get("k") == "Lit":
+        return n.get("t") == "bool" and n.get("v") == "false"
+    if n.get("k") == "Return":
+        return n.get("e") is not None and _declines(n["e"])
+    if n.get("k") == "Block":
+        st = q.body_stmts(n)
+        return len(st) == 1 and st[0]["k"] == "ExprStmt" and _declines(st[0]["e"])
+    return False
+
+
+def _window_offset(e):
+    """k for an expression that reads `lines[index + k]` / `lines.get(index + k)` (through clone / refs); None otherwise."""
+    e = q.strip_refs(e)
+    while e.get("k") == "MethodCall" and e["m"] in ("clone", "as_ref", "cloned", "copied"):
+        e = q.strip_refs(e["recv"])
+    idx = None
+    if e.get("k") == "Index" and q.show(q.strip_refs(e["e"])) == "lines":
+        idx = e["i"]
+    elif e.get("k") == "MethodCall" and e["m"] == "get" and q.show(q.strip_refs(e["recv"])) == "lines" and len(e["args"]) == 1:
+        idx = e["args"][0]
+    if idx is None:
+        return None
+    while idx.get("k") == "Paren":
+        idx = idx["e"]
+    if idx.get("k") == "Path" and idx["p"] in ("index", "idx", "i"):
+        return 0
+    if idx.get("k") == "Binary" and idx["op"] == "+":
+        for a, b in ((idx["a"], idx["b"]), (idx["b"], idx["a"])):
+            if a.get("k") == "Path" and b.get("k") == "Lit":
+                try:
+                    return int(str(b["v"]).rstrip("usize").rstrip("_") or 0)
+                except ValueError:
+                    return None
+    return None
+
+
+def window_binders(f):
+    """{instruction variable: (offset k, declines_otherwise)} for every variable bound to the `instr` field of a `Line::Instr`
+    pattern applied to `lines[index + k]`, whatever the construct: match arm, `if .. let`, or `let .. else`."""
+    out = {}
+
+    def instr_var(pat):
+        for p in q.walk(pat):
+            if p["k"] == "PStruct" and q.last_seg(p["p"]) == "Instr" and "Line" in p["p"]:
+                for fl in p["fields"]:
+                    if fl["name"] == "instr":
+                        bs = q.pat_bindings(fl["pat"])
+                        if bs:
+                            return bs[0]
+        return None
+
+    def pairs(pat, e):
+        """(sub-pattern, sub-expression) pairs of a destructuring, component by component for tuples."""
+        e0 = e
+        while e0.get("k") == "Paren":
+            e0 = e0["e"]
+        if pat.get("k") == "PTuple" and e0.get("k") == "Tuple" and len(pat["elems"]) == len(e0["elems"]):
+            for sp, se in zip(pat["elems"], e0["elems"]):
+                yield from pairs(sp, se)
+        else:
+            yield pat, e
+
+    def record(pat, e, declines):
+        for sp, se in pairs(pat, e):
+            v = instr_var(sp)
+            k = _window_offset(se)
+            if v and k is not None:
+                out[v] = (k, declines)
+
+    for x in q.walk(f["body"]):
+        if x["k"] == "Match":
+            for a in x["arms"]:
+                others = [b for b in x["arms"] if b is not a]
+                record(a["pat"], x["e"], all(_declines(b["body"]) for b in others))
+        elif x["k"] == "Local" and x.get("else") is not None and x.get("init") is not None:
+            record(x["pat"], x["init"], _declines(x["else"]))
+        elif x["k"] == "If":
+            for c in q.walk(x["c"]):
+                if c["k"] == "Let":
+                    record(c["pat"], c["e"], _declines(x.get("e")))
+    return out
+
 
 @rule("PEEP-SOUND", ["C05", "C16", "C15"], "each peephole rewrite preserves the stack effect given the VM arm's operand access order; control rewrites match the jump arms")
 def peep_sound(ctx, r):
@@ -390,19 +478,29 @@ def peep_sound(ctx, r):
         return
     parms, m = peephole_arms(p2, 2)
     r.count("two-instruction rewrite arms", len([a for a in parms if a[0]]), 14, OPT)
-    # multi-instruction windows never span a label: the following lines are bound as Line::Instr
+    # multi-instruction windows never span a label: every instruction of the window is bound through a `Line::Instr`
+    # pattern on `lines[index + k]`, and when that pattern does not match the helper declines (false)
     for name, n in (("peephole2_helper", 2), ("peephole3_helper", 3)):
         f = fns.get(name)
         if f is None:
             r.missing(name, OPT)
             continue
-        lets = [x for x in q.walk(f["body"]) if x["k"] == "Let" and q.show_pat(x["pat"]).startswith("Line::Instr")
-                and q.show(x["e"]).replace(" ", "") in {f"&lines[(index+{k})]" for k in range(1, n)}]
-        r.ob(len(lets) >= n - 1, f"optimize_bytecode.rs:{name}:window-may-span-label", OPT, f["l"],
-             f"{name} must bind each of the {n - 1} following lines as Line::Instr (a window spanning a label would swallow a jump target); found {len(lets)}",
-             sample=f"{name}: {len(lets)} following lines bound as Line::Instr")
-        first_label = [a for mm in q.walk(f["body"]) if mm["k"] == "Match" for a in mm["arms"] if q.show_pat(a["pat"]).startswith("Line::Label") and q.show(a["body"]) == "false"]
-        r.ob(bool(first_label), f"optimize_bytecode.rs:{name}:label-first", OPT, f["l"], f"{name}: a window starting at a label must be declined")
+        _, pm = peephole_arms(f, n)
+        if pm is None:
+            r.missing(f"{name}:window match", OPT)
+            continue
+        names = [q.show(q.strip_refs(e)) for e in pm["e"]["elems"]]
+        bound = window_binders(f)
+        got = {}
+        for k, nm in enumerate(names):
+            b = bound.get(nm)
+            if b is not None and b[0] == k:
+                got[k] = b
+        later = [k for k in range(1, n) if k in got and got[k][1]]
+        r.ob(len(later) >= n - 1, f"optimize_bytecode.rs:{name}:window-may-span-label", OPT, f["l"],
+             f"{name} must bind each of the {n - 1} following lines through a Line::Instr pattern on `lines[index + k]` and decline otherwise (a window spanning a label would swallow a jump target); found {len(later)} of {names[1:]}",
+             sample=f"{name}: {len(later)} following lines bound as Line::Instr")
+        r.ob(0 in got and got[0][1], f"optimize_bytecode.rs:{name}:label-first", OPT, f["l"], f"{name}: a window starting at a label must be declined (`{names[0]}` must come from a Line::Instr pattern on `lines[index]`, every other case giving false)")
     earlier_top = {}  # variant -> set of slots for which an earlier rule fires when the slot is Top
     for idx, (pats, guard, body, line) in enumerate(parms):
         if pats is None:
@@ -525,6 +623,11 @@ class AbsMachine:
             if t == "un" and s[1] == "!":
                 v = ev_val(s[2])
                 return (not v) if isinstance(v, bool) else ("not", v)
+            if t == "bin" and s[1] in ("==", "!=", "&&", "||"):
+                a, b = ev_val(s[2]), ev_val(s[3])
+                if isinstance(a, bool) and isinstance(b, bool):
+                    return {"==": a == b, "!=": a != b, "&&": a and b, "||": a or b}[s[1]]
+                return ("expr", sshow(s))
             if t == "imm":
                 return ("const", imm.get(s[1]))
             if t == "local":
@@ -606,7 +709,8 @@ class AbsMachine:
                 pass
             elif k == "assign" and ev.data[0] == ("self", "pc"):
                 self.jump = ev_val(ev.data[1])
-            elif k in ("access", "cast", "binop", "mcall", "index"):
+            elif k in ("access", "cast", "binop", "mcall", "index", "inline", "helper-ret"):
+                # markers of a helper expanded in place: its own events follow with their conditions
                 pass
             else:
                 self.fault = f"event {k} not modelled"
